@@ -3,7 +3,7 @@
 cd /verif
 SEEDS=${1:-"0 1 2"}
 [ -d /tmp/mutrepo ] || git -C /repo worktree add -q --detach /tmp/mutrepo HEAD
-git -C /tmp/mutrepo checkout -q --detach $(git -C /repo rev-parse HEAD) 2>/dev/null
+git -C /tmp/mutrepo reset -q --hard 2>/dev/null; git -C /tmp/mutrepo checkout -q --detach $(git -C /repo rev-parse HEAD) 2>/dev/null
 for d in seeded/*/; do
   n=$(basename $d)
   [ -f $d/meta.json ] || continue
